@@ -124,6 +124,12 @@ def _element(eng, node_elts, gen, st, fid, seq, inner=None):
     for e in node_elts:
         outs = eng.eval(e, s_e, cf)
         outs = [o for o in outs]
+        if len(outs) == 1 and outs[0][0] == "raise" and cond is None and inner is None and len(node_elts) == 1 and not vals:
+            # the element expression raises for EVERY element (e.g. `e.id` over a list of strings): see listcomp; only when
+            # nothing was changed before the exception (the state reported with it is the one the comprehension started in)
+            s_r = outs[0][1]
+            if all(_same_heap(s_r, st, f) for f in s_r.heap) and not any(oid in st.objs and s_r.objs[oid] is not st.objs[oid] for oid in s_r.objs):
+                raise ElementAlwaysRaises(outs[0][2])
         if len(outs) != 1 or outs[0][0] != "ok":
             raise Unsupported("comprehension element forks or raises")
         _, s_e, v = outs[0]
@@ -137,6 +143,15 @@ def _element(eng, node_elts, gen, st, fid, seq, inner=None):
         if _consts_after(t, mark):
             raise Unsupported("comprehension element introduces index-dependent fresh constants")
     return i, cond, vals, extra
+
+
+class ElementAlwaysRaises(Unsupported):
+    """the single element expression of an unfiltered comprehension has exactly one outcome at an arbitrary index, and that outcome
+    is an exception (a subclass of Unsupported: consumers that do not handle it stay undecided, as before)"""
+
+    def __init__(self, exc):
+        Unsupported.__init__(self, "comprehension element forks or raises")
+        self.exc = exc
 
 
 def _same_heap(s1, s0, f):
@@ -255,7 +270,19 @@ def listcomp(eng, node, st, fid):
     def mk(s, seq):
         if seq.known_len is not None and seq.known_len <= 6:
             return _unrolled_list(eng, node, gen, s, fid, seq)
-        i, cond, vals, extra = _element(eng, [node.elt], gen, s, fid, seq)
+        try:
+            i, cond, vals, extra = _element(eng, [node.elt], gen, s, fid, seq)
+        except ElementAlwaysRaises as ear:
+            # [f(e) for e in xs] where f(e) raises the same exception for every e: the comprehension raises it when xs is not empty
+            # (at its first element, before anything is built) and is the empty list otherwise
+            res = []
+            for nonempty, s2 in eng.branch(s, seq.n > 0):
+                if nonempty:
+                    res.append(("raise", s2, ear.exc))
+                else:
+                    s3, l = alloc_list(s2, "int", length=z3.IntVal(0))
+                    res.append(("ok", s3.updobj(l.oid, untyped=True), l))
+            return res
         s = _with_extras(s, seq, i, cond, extra)
         return gen_to_list(eng, s, VGen(seq, i, cond, vals[0]))
     return eng.bind(_source_seq(eng, st, fid, gen), mk)
